@@ -88,8 +88,25 @@ def main(argv=None):
         with warnings.catch_warnings():
             warnings.simplefilter('ignore')
             drv.run(ctx)
-    except Exception:  # noqa: BLE001
-        res['crashed'] = traceback.format_exc()[-3000:]
+    except Exception as exc:  # noqa: BLE001
+        tb = traceback.extract_tb(exc.__traceback__)
+        inner = tb[-1] if tb else None
+        drv_frames = [f for f in tb if '/vf/rtc/drivers/' in f.filename]
+        if inner is not None and '/vf/' not in inner.filename and drv_frames and \
+                ('photutils' in inner.filename or inner.filename.endswith('.pyx')):
+            # the library under test raised on an input the driver considers valid: the driver
+            # stops here, the exception itself is the failing observation
+            where = f'{os.path.basename(inner.filename)}:{inner.name}'
+            ctx.failures.append({
+                'key': f'rtc:{a.prop}/uncaught-exception/{type(exc).__name__}@{where}',
+                'what': f'{type(exc).__name__}: {exc} raised by {inner.filename}:{inner.lineno} '
+                        f'({inner.name}) while the driver evaluated {drv_frames[-1].name} '
+                        f'(line {drv_frames[-1].lineno}); the driver did not finish',
+                'case': {'kind': 'uncaught-exception',
+                         'traceback': traceback.format_exc()[-2500:]}})
+            ctx.notes.append('driver aborted by an exception raised inside the library under test')
+        else:
+            res['crashed'] = traceback.format_exc()[-3000:]
     res.update(evaluations=ctx.evaluations, distinct_nontrivial=len(ctx._distinct),
                samples=ctx.samples, failures=ctx.failures, contracts_evaluated=ctx.contracts,
                notes=ctx.notes, wall_s=round(time.time() - t0, 2))
